@@ -17,7 +17,7 @@ VARIABLES fs
 Nbr == IF NbrSet = "quick" THEN {[k |-> "int", t |-> ""], [k |-> "string", t |-> "nmoe"]}
        ELSE {[k |-> "int", t |-> ""], [k |-> "string", t |-> "nmoe"], [k |-> "*int", t |-> "oe"], [k |-> "E1", t |-> ""]}
 Names == <<"Aa", "Bb", "Cc", "Dd">>
-EmbName(k) == IF k = "E2" THEN "E2" ELSE "E1"
+EmbName(k) == IF k = "E2" THEN "E2" ELSE IF k = "E3" THEN "E3" ELSE "E1"
 Variants(k) == IF k \in TwoVariant THEN {"z", "n"} ELSE {"z", "n", "e"}
 IsNbr(f) == \E x \in Nbr : x.k = f.k /\ x.t = f.t
 Hot(s) == Cardinality({i \in 1..Len(s) : ~IsNbr(s[i])})
